@@ -25,6 +25,7 @@ struct Task {
 	pred_fn pred; void *parg; int64_t deadline; bool timed_out;
 	uint64_t ny;
 	uint64_t fcount[MAX_FKINDS];
+	int64_t blocked_ns;      // virtual time this task spent waiting in block_until (time it was merely not scheduled is excluded)
 	void (*fn)(void *); void *arg;
 	jmp_buf jb; bool jb_set;
 	bool kill_req, killed;
@@ -82,6 +83,7 @@ int n_tasks() { return (int)tasks.size(); }
 bool task_done(int id) { return tasks[id]->st == T_DONE; }
 bool task_killed(int id) { return tasks[id]->killed; }
 uint64_t steps() { return g_step; }
+int64_t task_blocked_ns() { return tl_task ? tl_task->blocked_ns : 0; }
 uint64_t handoffs() { return g_handoffs; }
 int64_t now_ns() { return g_now; }
 int64_t mono_base() { return g_mono0; }
@@ -467,6 +469,7 @@ int block_until(pred_fn pred, void *arg, int64_t deadline_ns, uint32_t site)
 	if (pred(arg)) return 0;
 	if (deadline_ns >= 0 && deadline_ns <= g_now) return 1;
 	step_tick(t, Y_BLOCK, site);
+	int64_t t_block = g_now;
 	t->st = T_BLOCKED;
 	t->pred = pred; t->parg = arg; t->deadline = deadline_ns; t->timed_out = false;
 	Task *to = choose_forced(t, site);
@@ -482,6 +485,11 @@ int block_until(pred_fn pred, void *arg, int64_t deadline_ns, uint32_t site)
 	bool ok = pred(arg);
 	t->pred = NULL;
 	t->timed_out = !ok;
+	{
+		int64_t w = g_now - t_block;
+		if (deadline_ns >= 0 && w > deadline_ns - t_block) w = deadline_ns - t_block;   // the rest was scheduling latency
+		if (w > 0) t->blocked_ns += w;
+	}
 	return ok ? 0 : 1;
 }
 
